@@ -15,10 +15,10 @@ import NeumannModel.Paths.AStarProofs
 
   A* is modelled for the default (zero) heuristic and answers the COST of the returned path (which of
   several optimal paths the engine returns depends on heap tie order; the path itself is validated by
-  the correspondence run).  Components / spanning forest / core numbers / triangles /
-  all-minimum-weight-paths: `Spec.lean` gives the textbook definitions; there is NO theorem about the
-  Rust algorithms — the engine is compared with independent reference implementations by the
-  correspondence run only.
+  the correspondence run).  The second half of the property — `find_all_weighted_paths`, the stored
+  adjacency as `edges_of` / `neighbors` show it, A* under a config, and the algorithm family
+  (components, spanning forest, core numbers, triangles, strongly connected components) — is in
+  `AlgoProps.lean`.
 -/
 namespace Neumann.Paths.Props
 open Neumann.Paths
